@@ -44,7 +44,7 @@ class Debugger:
         # A map from instruction numbers (i.e., possible values of the program counter)
         # to human-readable line numbers.
         self.breakpoints = {}  # type: Dict[int, str]
-        self.vm = VirtualMachine()
+        self.vm = VirtualMachine(settings)
         # How many CALLs without RETURNs?
         self.calls = 0
         # Back-up of the debugger's state, to implement the "undo" command. Implicitly
